@@ -4,6 +4,7 @@
 package hist
 
 import (
+	"strings"
 	"context"
 	"errors"
 	"fmt"
@@ -330,6 +331,11 @@ func (r *Runner) exec(c model.Call) model.Obs {
 			req.Subscription.RetryPolicy = &pubsubpb.RetryPolicy{MinimumBackoff: durationpb.New(30 * time.Second), MaximumBackoff: durationpb.New(40 * time.Second)}
 		case "retry:none":
 			req.UpdateMask = &fieldmaskpb.FieldMask{Paths: []string{"retry_policy"}}
+		case "dl:none":
+			req.UpdateMask = &fieldmaskpb.FieldMask{Paths: []string{"dead_letter_policy"}}
+		case "dl:TD", "dl:TE":
+			req.UpdateMask = &fieldmaskpb.FieldMask{Paths: []string{"dead_letter_policy"}}
+			req.Subscription.DeadLetterPolicy = &pubsubpb.DeadLetterPolicy{DeadLetterTopic: model.TopicPath(strings.TrimPrefix(c.Op.Tgt, "dl:")), MaxDeliveryAttempts: 1}
 		case "ttl:2min", "ttl:1h", "ttl:default":
 			req.UpdateMask = &fieldmaskpb.FieldMask{Paths: []string{"expiration_policy"}}
 			if d := model.TTLPresets[c.Op.Tgt]; d > 0 {
